@@ -86,6 +86,8 @@ class ExprMixin:
         if name in ("True", "False", "None"):
             return {"True": VBool(True), "False": VBool(False), "None": VNone()}[name]
         gl = self.index.module_assign(mod, name)
+        if gl is not None and (mod, name) in st.ghost.get("globals", {}):
+            return st.ghost["globals"][(mod, name)]
         if gl is not None:
             if name == "log":
                 return VFunc("module", "logging.logger")
@@ -327,6 +329,20 @@ class ExprMixin:
             return [(st, VFunc("bound", attr, o))]
         if isinstance(o, VRefT):
             return self.symref_get(st, o, attr, node)
+        if isinstance(o, VOpt) and isinstance(o.kind.inner, Abstract):
+            t, f = self.split(st, z3.Not(o.is_none()))
+            out = []
+            if t:
+                out.extend(self.get_attr(t, o.get(), attr, node))
+            if f:
+                out.append((f, Exc("AttributeError", self.line(node), attr)))
+            return out
+        if isinstance(o, VAtom) and isinstance(o.kind, Abstract):
+            if attr in o.kind.attrs:
+                return [(st, o.kind.attr(o, attr))]
+            if attr in o.kind.methods:
+                return [(st, VFunc("amethod", (o.kind, attr), o))]
+            return [(st, Exc("AttributeError", self.line(node), attr))]
         if isinstance(o, VFunc):
             if o.what == "module":
                 dotted = f"{o.payload}.{attr}"
@@ -345,6 +361,12 @@ class ExprMixin:
                 for c in self.index.mro(o.payload):
                     cc = self.index.class_by_name.get(c)
                     if cc and attr in cc.class_assigns:
+                        val = cc.class_assigns[attr]
+                        if isinstance(val, ast.Constant):
+                            if "Enum" in cc.bases:
+                                # enum members are modelled by (class, value): distinct ints per class
+                                return [(st, VInt(val.value))]
+                            return self.eval(st, val)
                         return [(st, VFunc("classattr", (c, attr)))]
                 inner = self.index.class_by_name.get(attr)
                 if inner is not None:
@@ -403,6 +425,12 @@ class ExprMixin:
         if isinstance(k, _SliceV):
             return self.get_slice(st, cv, k, node)
         k = ops.deref(st, k)
+        if isinstance(cv, VMap) and cv.default is not None:
+            kk = ops.coerce(st, k, cv.key)
+            val = cv.val.wrap(z3.If(cv.has(kk), cv.get(kk).t, cv.default.t))
+            if ops.is_cell(st, c):
+                st.heap[c.oid].val = cv.put(kk, val)
+            return [(st, val)]
         if isinstance(cv, VMap):
             kk = ops.coerce(st, k, cv.key)
             return self.guarded(st, [(cv.has(kk), cv.get(kk)),
@@ -460,7 +488,7 @@ class ExprMixin:
             if items is not None:
                 r = VSeq.of(cv.elem, items)
             else:
-                r = VSeq(cv.elem, z3.SubSeq(cv.t, a, ln))
+                r = cv.sub(a, ln)
             return [(st, st.alloc(HeapObj("cell", val=r)))]
         raise Unsupported(f"slice of {cv!r}")
 
